@@ -74,8 +74,18 @@ func newRecEvaluator() *recEvaluator {
 	return &recEvaluator{ev: ev, log: log}
 }
 
+// reusedPod: every other evaluation goes through this one object (content replaced each time, as a caller decoding into a
+// reused variable does): where a pod lives in memory says nothing about what it contains
+var reusedPod corev1.Pod
+var evalCount int
+
 func (e *recEvaluator) Eval(lv api.LevelVersion, p *corev1.Pod) ([]RevResult, []policy.CheckResult) {
 	*e.log = (*e.log)[:0]
+	evalCount++
+	if evalCount%2 == 0 {
+		reusedPod = *p.DeepCopy()
+		p = &reusedPod
+	}
 	rs := e.ev.EvaluatePod(lv, &p.ObjectMeta, &p.Spec)
 	out := make([]RevResult, len(*e.log))
 	copy(out, *e.log)
